@@ -94,7 +94,7 @@ def spec_for(prop: str) -> dict[str, Any]:
 # --------------------------------------------------------------------------- generation
 
 HAZARDS_C05: list[str] = []
-HAZARDS_C06 = ["desc_foreign_ddl"]
+HAZARDS_C06 = ["desc_foreign_ddl", "desc_merge_in_txn"]
 
 
 def _rows(rng: Any, n: int) -> list[dict[str, Any]]:
@@ -279,7 +279,8 @@ def _nonquery(rng: Any, hz: dict[str, bool], in_txn: bool = False, any_txn: bool
         pool += [{"sql": f"SHOW TABLES IN SCHEMA {DB}.{SC}", "cols": None, "kind": "show"}, {"sql": "SHOW SCHEMAS", "cols": None, "kind": "show"}]
     if any_txn:
         # DDL next to an open transaction of any session could be a write-write conflict: outside the properties
-        pool = [x for x in pool if x["kind"] not in ("create_table", "truncate")]
+        # (a MERGE inside the session's own transaction: known finding, description after ROLLBACK re-reads the helper table)
+        pool = [x for x in pool if x["kind"] not in ("create_table", "truncate") and (x["kind"] != "merge" or not in_txn or hz["desc_merge_in_txn"])]
     return rng.choice(pool)
 
 
